@@ -199,6 +199,24 @@ def minimise_events(job, events, want_class, baseline_fp, scratch):
     return cur
 
 
+def typedef_of_blocklisted_crosses(prog, order_a, order_b):
+    """True if a typedef of a block-listed type stands before that type's
+    definition in one of the two orders and after it in the other (the trigger
+    of the known finding C07-typedef-of-forward-declared-blocklisted-type)."""
+    blocked = {prog.flags[i + 1] for i, f in enumerate(prog.flags[:-1]) if f == "--blocklist-type"}
+
+    def before(order, t, x):
+        pos = {it: n for n, it in enumerate(order)}
+        return pos.get(("def", t), -1) < pos.get(("def", x), 1 << 30)
+
+    for e in prog.entities:
+        if e.kind in ("typedef", "inst_typedef"):
+            for x in (e.soft | e.hard) & blocked:
+                if before(order_a, e.name, x) != before(order_b, e.name, x):
+                    return True
+    return False
+
+
 def diff_kind(d):
     """What differs between two inventories: only the derive lists (and the
     impl blocks that stand in for derives), or something else."""
@@ -392,10 +410,14 @@ def run(tier, seed, only=None):
             d = inv_diff(r0["inv"], r["inv"])
             if d:
                 first = d[0]
+                blk_cb = bool(job.get("callbacks")) and "--blocklist-type" in job["flags"]
+                crosses = blk_cb and typedef_of_blocklisted_crosses(progs[i][0], progs[i][1][k0], progs[i][1][k])
                 sig = {"class": "order-dependent-bindings", "engine": "O-order",
-                       "item_kind": first["item"].split(" ")[0], "diff_kind": diff_kind(d),
-                       "blocklist_with_implements_trait_callback":
-                           bool(job.get("callbacks")) and "--blocklist-type" in job["flags"]}
+                       "blocklist_with_implements_trait_callback": blk_cb,
+                       "typedef_of_blocklisted_type_moves_across_its_definition": crosses}
+                if not crosses:
+                    # anything else is identified more finely
+                    sig.update({"item_kind": first["item"].split(" ")[0], "diff_kind": diff_kind(d)})
                 out.violation(sig, {"engine": "c07", "kind": "graph-order", "job_a": job0, "job_b": job,
                                     "fix_a": cfg0, "fix_b": cfg, "diff": d[:6],
                                     "observed": {"class": "order-dependent-bindings", "items": [x["item"] for x in d]}})
